@@ -297,6 +297,7 @@ def check_grammar(acc, spec, g, rng, tier, origin):
         acc.note('Rule.is_lrec unobserved')
     texts = inputs_for(rng, spec, tier)
     gen = None
+    reused = None
     runaway = 0
     for idx, text in enumerate(texts):
         if runaway >= 2:
@@ -365,6 +366,15 @@ def check_grammar(acc, spec, g, rng, tier, origin):
             m_out = model_plain(case, g, start, text)
             g_out = gen_plain(gen, g, start, text)
             acc.count('gen_compared')
+            # one long-lived parser object across all inputs of this grammar (left-recursion tables must not leak)
+            if reused is None:
+                reused = gen()
+            r_out = plain(lambda t, **kw: reused.parse(t, start=start, **kw), g, text)
+            if r_out != g_out:
+                acc.violation('gen-reused-object/' + '+'.join(sorted({l["kind"] for l in spec.layers})),
+                              f'a reused generated parser object differs from a fresh one on a left-recursive grammar '
+                              f'{L.grammar_text(g)!r} input {text!r}: FRESH={g_out} REUSED={r_out}',
+                              D.witness(g, start, text, g_out, r_out, r, origin=origin))
             if m_out != g_out:
                 acc.violation('gen/' + '+'.join(sorted({l["kind"] for l in spec.layers})),
                               f'generated parser != model on left-recursive grammar {L.grammar_text(g)!r} input {text!r}: MODEL={m_out} GEN={g_out}',
